@@ -17,7 +17,7 @@
    to_json's default hook writes for a leaf value that JSON has no native form for).  The correspondence
    instantiates them with the results observed on the real functions ([parse_of], [ser_of]). *)
 From Coq Require Import List NArith ZArith Bool.
-From Coq Require String.
+From Coq Require Import String.  (* for the string literal notation only *)
 From Orso Require Import Base.C16_Defs Gen.C16_Fields.
 From Orso Require Base.C06_Defs Model.C06 Model.C05.
 Import ListNotations.
